@@ -879,7 +879,7 @@ fn mutate(rng: &mut Rng, prog: &mut Vec<Stmt>) -> &'static str {
     }
     for _ in 0..20 {
         let i = rng.below(prog.len());
-        let kind = rng.below(14);
+        let kind = rng.below(15);
         let dup_src = prog.iter().find_map(|s| match s {
             Stmt::Let { id, .. } | Stmt::Import { id, .. } => Some(id.clone()),
             _ => None,
@@ -1009,6 +1009,21 @@ fn mutate(rng: &mut Rng, prog: &mut Vec<Stmt>) -> &'static str {
                     args.insert(0, Arg::Spread("useless".into()));
                     prog.insert(0, Stmt::Let { id: "useless".into(), expr: Expr::New(PKG_P, vec![]) });
                     return "spread-argument-without-match";
+                }
+            }
+            (Stmt::Let { expr, .. }, 14) | (Stmt::Export { expr, .. }, 14) => {
+                // an identifier argument name written as a string: a string is taken literally, so
+                // a name that only worked through the path inference no longer names an import
+                if let Some(args) = first_new(expr) {
+                    for a in args.iter_mut() {
+                        if let Arg::Named(n, _) = a {
+                            if let ArgName::Ident(id) = n {
+                                let id = id.clone();
+                                *n = ArgName::Str(id);
+                                return "identifier-argument-name-as-string";
+                            }
+                        }
+                    }
                 }
             }
             (Stmt::Export { expr, opt }, 11) => {
